@@ -25,11 +25,14 @@ LEVEL_TEXT = ("Lean 4 theorems for `cull` (dask/optimization.py) over a translit
               "cull_deps_match (returned dependency map = get_dependencies recomputed in the returned graph), "
               "cull_preserves_eval (every kept key denotes the same value). Against the real evaluation (dask.core.get) the "
               "statement is REFUTED for the code as it is (cull_preserves_get_refuted: a reference hidden in a non-task tuple is "
-              "culled; same root cause changes values under inline_functions/fuse_linear/fuse; known findings). PARTIAL: inline, "
-              "inline_functions, fuse_linear, fuse (parameter grid, renamers), task-spec cull, fuse_linear_task_spec, Task.fuse, "
-              "resolve_aliases and substitute are so far VALIDATED on every run (requested keys present, values equal under "
-              "dask.core.get, returned dependency map = get_dependencies of the returned graph), not yet proved; `subs` is "
-              "modelled and diffed.")
+              "culled; same root cause changes values under inline_functions/fuse_linear/fuse; known findings). For the "
+              "substitution-based passes the building blocks are proved for all inputs: subs_preserves_eval (the substitution "
+              "lemma for dask.core.subs), inline_step_preserves_solutions (substituting a key's definition into one task keeps "
+              "exactly the same solutions of the graph's equations), drop_unreferenced_preserves_values, dag_values_unique. "
+              "PARTIAL: that inline, inline_functions, fuse_linear and fuse (parameter grid, renamers) are compositions of these "
+              "steps, and the task-spec passes (cull, fuse_linear_task_spec, Task.fuse, resolve_aliases, substitute), are "
+              "VALIDATED on every run (requested keys present, values equal under dask.core.get, returned dependency map = "
+              "get_dependencies of the returned graph), not proved.")
 LEVEL_NOTE = ("Trusted: Lean kernel + standard axioms; hand transliteration tied by function-level diff of cull (keys + dependency "
               "map), subs and get_dependencies; every real optimiser output is evaluated with dask.core.get. Fixed in /repo: "
               "fuse(ave_width=inf) OverflowError; fuse_linear_task_spec with unrenamable (int) keys stored the fused task under None.")
